@@ -85,6 +85,15 @@ func main() {
 		rules.DumpNasModel(core.NewCtx("C08", "quick", prog))
 		return
 	}
+	if prop == "drvdump" {
+		prog, err := core.Load(core.RepoDir(), "")
+		if err != nil {
+			fmt.Println(err)
+			os.Exit(2)
+		}
+		rules.DumpDriver(core.NewCtx("C01", "quick", prog), tier)
+		return
+	}
 	if prop == "absexec" {
 		// developer entry: stgverif absexec <pkgpath> <func> [keep,keep,...]: print the abstract outcomes of a function
 		prog, err := core.Load(core.RepoDir(), "")
